@@ -294,6 +294,8 @@ class Runner:
             if kind == 'addPacked':
                 datas = [pool.contents[x] for x in op['cs']]
                 kw = dict(compress=op['compress'], no_holes=op['no_holes'], no_holes_read_twice=op['read_twice'])
+                if op.get('do_fsync') is False:
+                    kw['do_fsync'] = False
                 via = op.get('via', 'bytes')
                 if via == 'bytes':
                     keys = c.add_objects_to_pack(datas, **kw)
@@ -373,7 +375,8 @@ class Runner:
                 calls = []
                 cb = (lambda action, value: calls.append(action)) if op.get('callback') else None
                 mapping = c.import_objects(it, src.c, compress=op['compress'],
-                                           target_memory_bytes=op.get('budget', 104857600), callback=cb)
+                                           target_memory_bytes=op.get('budget', 104857600), callback=cb,
+                                           **({'do_fsync': False} if op.get('do_fsync') is False else {}))
                 wanted = {k for k in op['ks'] if isinstance(k, int) and k in src.expected}
                 rc.expected.update(wanted)
                 out = []
@@ -468,6 +471,8 @@ class Runner:
         if kind == 'addPacked':
             # a stream handed over mid-way is hashed from there first (a digest nobody knows), so it takes the write-then-rewind path
             rt = op['read_twice']
+            if op.get('do_fsync') is False:
+                return f'addPackedO {b01(op["compress"])} {b01(op["no_holes"])} {b01(rt)} 0 {show_nats(op["cs"])}'
             return f'addPacked {b01(op["compress"])} {b01(op["no_holes"])} {b01(rt)} {show_nats(op["cs"])}'
         if kind == 'packAll':
             return f'packAll {parts[5]} {parts[6]} {parts[7]}'
